@@ -512,10 +512,6 @@ class C12(Prop):
             # the first task-state message that update_tasks left with an exception
             errs = [r['err'] for o, r in zip(case['ops'], obs['per_op']) if o[0] == 'tstates' and r['err']]
             cond = 'update_tasks-raised-' + errs[0] if errs else 'no-exception'
-        elif obs and clause == 'bound_only_to_eligible':
-            # a pilot state notification batch which _update_pilot_states left with an exception
-            errs = [r['err'] for o, r in zip(case['ops'], obs['per_op']) if o[0] == 'pstates' and r['err']]
-            cond = 'pilot-state-batch-raised-' + errs[0] if errs else 'no-exception'
         elif clause == 'bound_once':
             adds = [p for o in case['ops'] if o[0] == 'add' for p, _, _ in o[2]]
             cond = 'pilot-added-twice' if len(adds) != len(set(adds)) else 'no-readd'
